@@ -1,17 +1,22 @@
 #!/usr/bin/env python3
-"""tools/mutant_matrix.py [ids...] : runs each kept seeded change against the check of its property, in a scratch
+"""tools/mutant_matrix.py [ids...] : (an id may be written ID@Cxx to run the check of ANOTHER property against it) runs each kept seeded change against the check of its property, in a scratch
 worktree of /repo (XDOCTEST_REPO), never in /repo itself; prints and writes seeded/MATRIX.json"""
 import json, os, subprocess, sys
-W = '/tmp/wt/matrix'
+W = '/tmp/wt/matrix%d' % os.getpid()
 subprocess.run(['git', '-C', '/repo', 'worktree', 'remove', '--force', W], stderr=subprocess.DEVNULL)
 subprocess.run(['git', '-C', '/repo', 'worktree', 'add', '-q', '--detach', W, 'HEAD'], check=True)
 ids = sys.argv[1:] or sorted(d for d in os.listdir('/verif/seeded') if os.path.isdir(os.path.join('/verif/seeded', d)))
 out = {}
 try:
     for sid in ids:
+        other = None
+        if '@' in sid:
+            sid, other = sid.split('@')
         d = os.path.join('/verif/seeded', sid)
         meta = json.load(open(os.path.join(d, 'meta.json')))
-        prop = meta['property']
+        prop = other or meta['property']
+        if other:
+            sid = sid + '@' + other
         subprocess.run(['git', '-C', W, 'checkout', '-q', '--', '.'], check=True)
         a = subprocess.run(['git', '-C', W, 'apply', os.path.join(d, 'patch.diff')], stderr=subprocess.PIPE)
         if a.returncode != 0:
@@ -33,5 +38,6 @@ finally:
 old = {}
 if os.path.exists('/verif/seeded/MATRIX.json'):
     old = json.load(open('/verif/seeded/MATRIX.json'))
+old = json.load(open('/verif/seeded/MATRIX.json')) if os.path.exists('/verif/seeded/MATRIX.json') else old
 old.update(out)
 json.dump(old, open('/verif/seeded/MATRIX.json', 'w'), indent=1, sort_keys=True)
